@@ -771,6 +771,8 @@ def pymethod(ex, o, name, args, kw):
         return bstr_substr(o.s, st, en)
     if isinstance(o, dict):
         if name == "get":
+            if isinstance(args[0], (str, int, tuple, type(None))) and not isinstance(args[0], bool) and args[0] not in o:
+                return args[1] if len(args) > 1 else None  # dict.get never goes through __missing__
             try:
                 return ex.getitem(o, args[0])
             except PyRaise as r:
